@@ -119,7 +119,14 @@ Fixpoint tok_string (fuel : nat) (s : string) (cur : string) (esc : bool) : opti
       else tok_string fuel t (String c cur) false
   end.
 
-Fixpoint tokenize_acc (fuel : nat) (s : string) (cur : string) : res (list string) :=
+(* _in_base64_literal(fields, token): the token being read is base64 data, in which "//" is not a comment ("/" is a
+   base64 symbol: `byte base64 //8=` and `byte b64(//8=)` are the two bytes 0xffff).  [prev] is fields[-1] ("" when
+   there is no field yet: no token is empty); [cur] is the part of the current token read so far, REVERSED. *)
+Definition is_b64_kw (t : string) : bool := (t =? "base64") || (t =? "b64").
+Definition in_b64 (prev cur : string) : bool :=
+  starts_with "base64(" (rev_string cur) || starts_with "b64(" (rev_string cur) || is_b64_kw prev.
+
+Fixpoint tokenize_acc (fuel : nat) (s : string) (cur : string) (prev : string) : res (list string) :=
   match fuel with
   | O => Err "tokenizer fuel"
   | S f =>
@@ -128,27 +135,27 @@ Fixpoint tokenize_acc (fuel : nat) (s : string) (cur : string) : res (list strin
       | String c t =>
           if is_space c then
             match cur with
-            | EmptyString => tokenize_acc f t ""
-            | _ => do r <- tokenize_acc f t ""; Ok (strip (rev_string cur) :: r)
+            | EmptyString => tokenize_acc f t "" prev
+            | _ => let tk := strip (rev_string cur) in do r <- tokenize_acc f t "" tk; Ok (tk :: r)
             end
           else if Ascii.eqb c """"%char then
             match cur with
             | EmptyString =>
                 match tok_string f t (String c "") false with
-                | Some (tokn, rest) => do r <- tokenize_acc f rest ""; Ok (tokn :: r)
+                | Some (tokn, rest) => do r <- tokenize_acc f rest "" tokn; Ok (tokn :: r)
                 | None => Err "ParseError: missing closing quote"
                 end
-            | _ => tokenize_acc f t (String c cur)
+            | _ => tokenize_acc f t (String c cur) prev
             end
-          else if starts_with "//" s then
+          else if starts_with "//" s && negb (in_b64 prev cur) then
             (* comment token: rest of the line.  A pending partial token is dropped exactly as in the code
-               (fields.append(line[i:]) without flushing line[start:i]) *)
+               (fields.append(line[i:]) without flushing line[start:i]).  Inside base64 data "//" is data. *)
             Ok [s]
-          else tokenize_acc f t (String c cur)
+          else tokenize_acc f t (String c cur) prev
       end
   end.
 Definition tokenize (line : string) : res (list string) :=
-  let l := strip line in tokenize_acc (S (String.length l)) l "".
+  let l := strip line in tokenize_acc (S (String.length l)) l "" "".
 
 (* ---------------------------------------------------------------- base64 / base32 -> "0x<hex>" *)
 Definition b64_val (c : ascii) : option N :=
@@ -314,8 +321,10 @@ Fixpoint but_last {A} (l : list A) : list A :=
 Definition parse_line (line : string) : res (option instr) :=
   if strip line =? "" then Ok None else
   do fields0 <- tokenize line;
+  (* the last token is the comment unless it is base64 data: _in_base64_literal(fields[:-1], "") *)
   let fields := match List.last fields0 "" with
-                | lastf => if starts_with "//" lastf then but_last fields0 else fields0 end in
+                | lastf => if starts_with "//" lastf && negb (in_b64 (List.last (but_last fields0) "") "")
+                           then but_last fields0 else fields0 end in
   match fields with
   | [] => Ok None
   | f0 :: rest =>
